@@ -94,7 +94,7 @@ def run(tier, seed):
         plans.append(self_plan)
         pp = os.path.join(wd, "plans.ndjson")
         activation.write_plans(pp, plans)
-        trace, blobs, decoded, dec = activation.run_and_decode(wd, pp, seed)
+        trace, blobs, decoded, dec = activation.run_and_decode(wd, pp, seed, v=v, key="input:abort")
         activation.check_server_blobs(blobs, dec)
         accepted, rejects = core.tv_all("Trace_Activation", trace, decoded, wd, shards=8)
         activation.report_rejects(v, rejects, "input")
